@@ -611,6 +611,16 @@ def hardening_cases():
     me2 = Metadata(per_occurrence_limit=0.0, details={"": ""})
     out.append((Triangle([yr(2020, 0, {"a": 0, "b": 0.0, "c": False, "d": None, "": 0, "z": np.zeros(2), "zi": np.zeros(2, dtype=np.int64)}, me),
                           yr(2020, 1, {}, me), yr(2020, 0, {"a": 0.0}, me2)]), {"family": "E"}, "hardening/E-falsy"))
+    # R (round 8): text that LOOKS like something else must come back as the same str -- ISO dates and date-times, numbers,
+    #    JSON literals, as values and as keys of details / loss_details and as attribute values and field names
+    look = ["2023-12-31", "2024-02-29", "2023-02-30", "2023-12-31T00:00:00", "2023-12", "20231231", "1e5", "0012", "-0", "NaN",
+            "Infinity", "null", "true", "None", "[1, 2]", "{}", " 2023-12-31", "2023-12-31 "]
+    mr = [Metadata(country=x, details={"as_of": x, x: "v"}, loss_details={"event_date": x, x + "_": 1}) for x in look]
+    out.append((Triangle([yr(2020, lag, {"paid_loss": i + lag, x: i}, m) for i, (x, m) in enumerate(zip(look, mr)) for lag in (0, 1)]),
+                {"family": "R"}, "hardening/R-lookalike-strings"))
+    out.append((Triangle([IncrementalCell(period_start=D(2020, 1, 1), period_end=D(2020, 12, 31), evaluation_date=D(2021, 12, 31),
+                                          prev_evaluation_date=D(2020, 12, 31), values={"paid_loss": 1, "2021-12-31": 2}, metadata=m)
+                          for m in mr[:6]]), {"family": "R", "basis": "inc"}, "hardening/R-lookalike-strings-inc"))
     # F: degenerate shapes
     out.append((Triangle([]), {"family": "F"}, "hardening/F-empty"))
     out.append((Triangle([yr(2020, 0, {"a": 1})]), {"family": "F"}, "hardening/F-one-cell"))
